@@ -32,6 +32,8 @@ func parse(path string) *ast.File {
 	return f
 }
 
+func printerFprint(sb *strings.Builder, n ast.Node) { printer.Fprint(sb, fset, n) }
+
 func exprStr(e ast.Expr) string {
 	var sb strings.Builder
 	printer.Fprint(&sb, fset, e)
@@ -476,6 +478,9 @@ func main() {
 
 	// ---------------------------------------------------------------- fr limb code (translated)
 	translateLimbs(*repo, writeImp)
+
+	// ---------------------------------------------------------------- curve formulas (translated)
+	translateFormulas(*repo, writeImp)
 	fmt.Println("extract: ok")
 }
 
